@@ -250,6 +250,145 @@ theorem good_submit (s : NState) (tx : Tx) (h : Good s) : Good (submit s tx).1 :
   · next ha => exact ⟨h.stack, poolAccepts_append _ _ _ _ _ h.pool ha⟩
   · exact h
 
+/-! genesis and its ledger never change -/
+
+theorem fixed_connectTip (s s' : NState) (b : Block) (hc : connectTip s b = some s') :
+    s'.genesis = s.genesis ∧ s'.gledger = s.gledger := by
+  unfold connectTip at hc
+  split at hc
+  · cases hc; exact ⟨rfl, rfl⟩
+  · cases hc
+
+theorem fixed_disconnectTip (s : NState) :
+    (disconnectTip s).genesis = s.genesis ∧ (disconnectTip s).gledger = s.gledger := by
+  unfold disconnectTip
+  cases s.active with
+  | nil => exact ⟨rfl, rfl⟩
+  | cons a r => exact ⟨rfl, rfl⟩
+
+/-- `genesis` and `gledger` are the same in both states -/
+def SameG (a b : NState) : Prop := a.genesis = b.genesis ∧ a.gledger = b.gledger
+
+theorem SameG.trans {a b c : NState} (h1 : SameG a b) (h2 : SameG b c) : SameG a c :=
+  ⟨h1.1.trans h2.1, h1.2.trans h2.2⟩
+
+theorem sameG_reorganize (s : NState) (d : Nat) (attach : List Block) : SameG (reorganize s d attach).1 s := by
+  unfold reorganize
+  have h1 : ∀ (n : List Nat) (s : NState), SameG (n.foldl (fun s _ => disconnectTip s) s) s := by
+    intro n
+    induction n with
+    | nil => intro s; exact ⟨rfl, rfl⟩
+    | cons a r ih => intro s; exact (ih _).trans (fixed_disconnectTip s)
+  have h2 : ∀ (acc : NState × Bool), SameG (attach.foldl attachStep acc).1 acc.1 := by
+    induction attach with
+    | nil => intro acc; exact ⟨rfl, rfl⟩
+    | cons b r ih =>
+      intro acc
+      simp only [List.foldl_cons]
+      refine (ih _).trans ?_
+      unfold attachStep
+      split
+      · cases hc : connectTip acc.1 b with
+        | some s' => exact fixed_connectTip _ _ _ hc
+        | none => exact ⟨rfl, rfl⟩
+      · exact ⟨rfl, rfl⟩
+  exact (h2 _).trans (h1 _ s)
+
+theorem sameG_acceptBlock (s : NState) (b : Block) : SameG (acceptBlock s b).1 s := by
+  unfold acceptBlock
+  split
+  · exact ⟨rfl, rfl⟩
+  · split
+    · exact ⟨rfl, rfl⟩
+    · split
+      · unfold extendTip
+        cases hc : connectTip s b with
+        | some s' =>
+          have := fixed_connectTip s s' b hc
+          exact ⟨this.1, this.2⟩
+        | none => exact ⟨rfl, rfl⟩
+      · unfold sideOrReorg
+        split
+        · exact ⟨rfl, rfl⟩
+        · split
+          · exact ⟨rfl, rfl⟩
+          · simp only
+            split
+            · exact sameG_reorganize _ _ _
+            · exact sameG_reorganize _ _ _
+
+theorem sameG_processOrphans (fuel : Nat) (s : NState) (q : List Nat) : SameG (processOrphans fuel s q).1 s := by
+  induction fuel generalizing s q with
+  | zero => unfold processOrphans; exact ⟨rfl, rfl⟩
+  | succ n ih =>
+    cases q with
+    | nil => unfold processOrphans; exact ⟨rfl, rfl⟩
+    | cons id queue =>
+      unfold processOrphans
+      simp only
+      have hstep : ∀ (kids : List Block) (acc : NState × Bool × List Nat),
+          SameG (kids.foldl orphanStep acc).1 acc.1 := by
+        intro kids
+        induction kids with
+        | nil => intro acc; exact ⟨rfl, rfl⟩
+        | cons o r ihk =>
+          intro acc
+          simp only [List.foldl_cons]
+          refine (ihk _).trans ?_
+          unfold orphanStep
+          split
+          · have := sameG_acceptBlock { acc.1 with orphans := acc.1.orphans.filter (·.id != o.id) } o
+            simp only
+            split <;> exact this
+          · exact ⟨rfl, rfl⟩
+      have hg := hstep (s.orphans.filter (·.prev == id)) (s, true, queue)
+      split
+      · exact (ih _ _).trans hg
+      · exact hg
+
+theorem sameG_processBlock (s : NState) (b : Block) : SameG (processBlock s b).1 s := by
+  unfold processBlock
+  split
+  · exact ⟨rfl, rfl⟩
+  · split
+    · exact ⟨rfl, rfl⟩
+    · split
+      · exact ⟨rfl, rfl⟩
+      · split
+        · exact ⟨rfl, rfl⟩
+        · have h1 := sameG_acceptBlock s b
+          simp only
+          split
+          · exact h1
+          · have h2 := sameG_processOrphans ((acceptBlock s b).1.orphans.length + 1) (acceptBlock s b).1 [b.id]
+            split <;> exact h2.trans h1
+
+theorem genesis_processBlock (s : NState) (b : Block) : (processBlock s b).1.genesis = s.genesis :=
+  (sameG_processBlock s b).1
+theorem gledger_processBlock (s : NState) (b : Block) : (processBlock s b).1.gledger = s.gledger :=
+  (sameG_processBlock s b).2
+theorem genesis_submit (s : NState) (tx : Tx) : (submit s tx).1.genesis = s.genesis := by
+  unfold submit; split <;> rfl
+theorem gledger_submit (s : NState) (tx : Tx) : (submit s tx).1.gledger = s.gledger := by
+  unfold submit; split <;> rfl
+
 theorem good_init (P : Params) (g : Block) : Good (initState P g) := ⟨trivial, by simp [initState, PoolInv, poolIns]⟩
+
+/-- a history: block deliveries and transaction submissions in any order -/
+inductive Op | deliver (b : Block) | submit (tx : Tx)
+
+def run (s : NState) : List Op → NState
+  | [] => s
+  | .deliver b :: r => run (processBlock s b).1 r
+  | .submit tx :: r => run (submit s tx).1 r
+
+theorem good_run (s : NState) (ops : List Op) (h : Good s) : Good (run s ops) := by
+  induction ops generalizing s with
+  | nil => exact h
+  | cons op r ih =>
+    cases op with
+    | deliver b => exact ih _ (good_processBlock s b h)
+    | submit tx => exact ih _ (good_submit s tx h)
+
 
 end ElaVerif.Node
